@@ -755,6 +755,31 @@ package quic
 //@   ensures [in-place] samearray(result, raw) && cap(result) == cap(raw)
 //@   modifies raw[:]
 
+// appendLongHeaderPacket / appendShortHeaderPacket: the length handed back — which the connection books as bytes sent
+// (amplification budget, bytes in flight) — is the number of bytes this call added to the datagram buffer, padding and
+// AEAD tag included (C14). The payload serialiser is only assumed to extend the slice it is given.
+//@ func (p *packetPacker) appendPacketPayload
+//@   trusted frame serialisation (ACK, control and STREAM frames, padding); only "extends the slice it is given, in place or in a fresh array" is used
+//@   ensures implies(result1 == nil, len(result0) >= len(raw) && (samearray(result0, raw) || isfresh(result0)))
+//@   modifies raw[*]
+//@ func (p *packetPacker) appendLongHeaderPacket#impl
+//@   props C14
+//@   requires p.pnManager != nil && buffer != nil && header != nil && sealer != nil && len(header.Token) <= 65536 && header.Type != protocol.PacketTypeRetry && cap(buffer.Data) <= 65536
+//@   requires 0 <= pl.length && pl.length <= 8000 && 0 <= padding && padding <= 8000 && 1 <= header.PacketNumberLen && header.PacketNumberLen <= 4
+//@   unclaimed pre:(*packetPacker).encryptPacket@5.1 the payload serialiser's output size is not under contract (trusted frame above), so the spare capacity encryptPacket needs for the AEAD tag is not derivable here; the uQUIC Initial path (appendInitialPacketPayload) proves it for the packets it builds
+//@   unclaimed safe:slice:1 same reason: that the serialised packet still fits the buffer's capacity depends on the serialiser's output size
+//@   ensures [reported-length-is-what-was-added-to-the-datagram] implies(result1 == nil, result0 != nil && result0.length == len(buffer.Data) - old(len(buffer.Data)))
+//@   ensures [registered-under-the-peeked-number] implies(result1 == nil, called("(quic.packetNumberManager).PopPacketNumber") == 1 && result0.header == header)
+//@   modifies everything
+//@ func (p *packetPacker) appendShortHeaderPacket#impl
+//@   props C14
+//@   requires p.pnManager != nil && buffer != nil && sealer != nil && cap(buffer.Data) <= 65536 && connID.l <= 20 && 1 <= pnLen && pnLen <= 4
+//@   requires 0 <= pl.length && pl.length <= 8000 && 0 <= padding && padding <= 8000
+//@   unclaimed pre:(*packetPacker).encryptPacket@6.1 as in appendLongHeaderPacket: the serialiser's output size is not under contract
+//@   unclaimed safe:slice:1 as in appendLongHeaderPacket
+//@   ensures [reported-length-is-what-was-added-to-the-datagram] implies(result1 == nil, result0.Length == len(buffer.Data) - old(len(buffer.Data)))
+//@   ensures [registered-under-the-peeked-number] implies(result1 == nil, called("(quic.packetNumberManager).PopPacketNumber") == 1 && result0.PacketNumber == pn)
+//@   modifies everything
 //@ func (p *uPacketPacker) appendInitialPacketPayload
 //@   props C10 C09
 //@   let ps = p.uSpec.InitialPacketSpec
@@ -1072,6 +1097,87 @@ package quic
 //@   ensures [never-above-datagram] implies(firstIsInitial, callarg("(*packetPacker).maybeGetCryptoPacket", 0, 1) <= maxSize - ufi("aead.overhead"))
 //@   modifies everything
 
+//@ func newConnection$var
+//@   props C05 C08
+//@   requires conn != nil && conf != nil && runner != nil && statelessResetter != nil && 1200 <= conf.InitialPacketSize && conf.InitialPacketSize <= 1452
+//@   opt cutafter NewCryptoSetupServer
+//@   ensures [initial-keys-from-the-dcid-of-the-packet-being-answered] called("NewCryptoSetupServer") == 1 && callarg("NewCryptoSetupServer", 0, 0).l == clientDestConnID.l && forall(k, 0, 20, callarg("NewCryptoSetupServer", 0, 0).b[k] == clientDestConnID.b[k])
+//@   let tp = callarg("NewCryptoSetupServer", 0, 3)
+//@   ensures [server-advertises-the-connection-ids-it-was-given] tp != nil && tp.OriginalDestinationConnectionID.l == origDestConnID.l && forall(k, 0, 20, tp.OriginalDestinationConnectionID.b[k] == origDestConnID.b[k]) && tp.InitialSourceConnectionID.l == srcConnID.l && forall(k, 0, 20, tp.InitialSourceConnectionID.b[k] == srcConnID.b[k]) && tp.RetrySourceConnectionID == retrySrcConnID
+//@   ensures [keys-for-the-negotiated-version] callarg("NewCryptoSetupServer", 0, 9) == v
+//@   modifies everything
+
+//@ func newClientConnection$var
+//@   props C05 C08
+//@   requires conn != nil && conf != nil && runner != nil && statelessResetter != nil && tlsConf != nil && 1200 <= conf.InitialPacketSize && conf.InitialPacketSize <= 1452
+//@   opt cutafter NewCryptoSetupClient
+//@   let tp = callarg("NewCryptoSetupClient", 0, 1)
+//@   ensures [initial-keys-from-the-destination-connection-id] called("NewCryptoSetupClient") == 1 && callarg("NewCryptoSetupClient", 0, 0).l == destConnID.l && forall(k, 0, 20, callarg("NewCryptoSetupClient", 0, 0).b[k] == destConnID.b[k])
+//@   ensures [client-advertises-its-source-connection-id] tp != nil && tp.InitialSourceConnectionID.l == srcConnID.l && forall(k, 0, 20, tp.InitialSourceConnectionID.b[k] == srcConnID.b[k])
+//@   ensures [keys-for-the-negotiated-version] callarg("NewCryptoSetupClient", 0, 7) == v
+//@   modifies everything
+
+//@ func newCryptoStream
+//@   trusted constructor (allocates a frame sorter); only its frame and non-nil result are used
+//@   ensures result != nil
+//@   modifies nothing
+//@ func newConnIDManager
+//@   props C16
+//@   ensures result != nil
+//@   modifies nothing
+//@ func newConnIDGenerator
+//@   trusted constructor (a struct literal with two maps; maps keyed by an interface are outside the generator's reach); only its frame and non-nil result are used
+//@   ensures result != nil
+//@   modifies nothing
+//@ func (c *Conn) preSetup
+//@   trusted frame only: fills the connection's own fields with freshly constructed parts (streams, flow controllers, queues, received-packet handler); leaves the configuration, the send connection and the roles alone
+//@   ensures c.config == old(c.config) && c.conn == old(c.conn) && c.perspective == old(c.perspective) && c.version == old(c.version) && c.rttStats != nil
+//@   modifies c._all
+//@ func estimateMaxPayloadSize
+//@   props C05
+//@   requires 37 <= mtu
+//@   ensures result == mtu - 37
+//@   modifies nothing
+//@ func (c *Conn) qlogTransportParameters
+//@   trusted qlog only
+//@   modifies nothing
+//@ iface (x quic.sendConn) capabilities
+//@   modifies nothing
+
+// handleOnePacket: every UDP datagram handed to the connection is credited to the anti-amplification budget exactly once,
+// with the size of the whole datagram, before any of its coalesced packets is looked at (C14: "three times the bytes
+// received") — not once per coalesced packet, and not only for the packets that later decrypt.
+//@ iface (h ackhandler.SentPacketHandler) ReceivedBytes
+//@   modifies nothing
+//@ func (c *Conn) handleOnePacket
+//@   props C14
+//@   requires c.sentPacketHandler != nil && c.config != nil && len(rp.data) <= 1099511627776 && rp.buffer != nil && 0 <= c.srcConnIDLen && c.srcConnIDLen <= 20
+//@   ensures [whole-datagram-credited-exactly-once] called("(ackhandler.SentPacketHandler).ReceivedBytes") == 1 && callarg("(ackhandler.SentPacketHandler).ReceivedBytes", 0, 1) == old(len(rp.data))
+//@   modifies everything
+//@ loop (c *Conn) handleOnePacket #0
+//@   invariant [credited-before-the-loop-only] called("(ackhandler.SentPacketHandler).ReceivedBytes") == 1 && callarg("(ackhandler.SentPacketHandler).ReceivedBytes", 0, 1) == old(len(rp.data))
+//@   invariant [current-packet-is-never-empty] len(p.data) >= 1 || len(p.data) == len(data)
+//@   invariant [still-usable] p.buffer != nil && 0 <= c.srcConnIDLen && c.srcConnIDLen <= 20 && len(data) <= 1099511627776
+//@   modifies everything
+//@ func (p *receivedPacket) Clone
+//@   props C14
+//@   ensures [same-datagram-view] result != nil && len(result.data) == len(p.data) && result.buffer == p.buffer
+//@   fresh result
+//@   modifies nothing
+//@ func (b *packetBuffer) Split
+//@   props C14
+//@   modifies b.refCount
+//@ func (b *packetBuffer) MaybeRelease
+//@   trusted returns the buffer to a sync.Pool once unreferenced; nothing is assumed about it
+//@   modifies everything
+//@ func (c *Conn) handleLongHeaderPacket
+//@   trusted frame only (used by handleOnePacket): unpacks and processes one long header packet; assumed not to credit received bytes itself and to leave the connection ID length alone
+//@   ensures c.srcConnIDLen == old(c.srcConnIDLen)
+//@   modifies everything
+//@ func (c *Conn) handleShortHeaderPacket
+//@   trusted frame only (used by handleOnePacket): unpacks and processes one short header packet; assumed not to credit received bytes itself and to leave the connection ID length alone
+//@   ensures c.srcConnIDLen == old(c.srcConnIDLen)
+//@   modifies everything
 //@ func (p *receivedPacket) Size
 //@   props C13
 //@   ensures result == len(p.data)
@@ -1211,9 +1317,9 @@ package quic
 // space first (a rejected 0-RTT packet left in the sent-packet history would later be declared lost and its data
 // retransmitted in 1-RTT packets: C13 "never if rejected").
 //@ iface (h ackhandler.SentPacketHandler) DropPackets
-//@   modifies everything
+//@   modifies nothing
 //@ iface (h quic.cryptoStreamHandler) DiscardInitialKeys
-//@   modifies everything
+//@   modifies nothing
 //@ iface (f flowcontrol.ConnectionFlowController) Reset
 //@   modifies everything
 //@ func (m *streamsMap) ResetFor0RTT
@@ -1223,18 +1329,61 @@ package quic
 //@   trusted drops queued 0-RTT control and stream frames: examined only as a callee
 //@   modifies everything
 //@ func (m *cryptoStreamManager) Drop
-//@   trusted finishes the crypto stream of the dropped level: examined only as a callee
-//@   modifies everything
+//@   props C13 C03
+//@   requires m.initialStream != nil && m.handshakeStream != nil
+//@   panics when encLevel != 1 && encLevel != 2
+//@   ensures [finishes-the-stream-of-the-dropped-level] implies(result == nil, ite(encLevel == 1, m.initialStream.finished, m.handshakeStream.finished))
+//@   modifies m.initialStream.finished, m.handshakeStream.finished
 //@ func (c *Conn) dropEncryptionLevel
-//@   trusted frame only (used by callers): drops one packet number space in both handlers, the crypto stream and the keys; touches none of the connection-ID fields. What it calls is checked by the #impl contract below
+//@   trusted frame only (used by callers): drops one packet number space in both handlers, the crypto stream and the keys; touches none of the connection-ID fields. What it calls, and the flag it sets, are checked by the #impl contract below
+//@   ensures [initial-keys-marked-dropped] implies(encLevel == 1 && result == nil, c.droppedInitialKeys)
 //@   modifies c.droppedInitialKeys
 //@ func (c *Conn) dropEncryptionLevel#impl
 //@   props C13
-//@   requires c.sentPacketHandler != nil && c.receivedPacketHandler != nil && c.cryptoStreamHandler != nil && c.streamsMap != nil && c.connFlowController != nil && c.cryptoStreamManager != nil && (encLevel == 1 || encLevel == 2 || encLevel == 3)
+//@   requires c.sentPacketHandler != nil && c.receivedPacketHandler != nil && c.cryptoStreamHandler != nil && c.streamsMap != nil && c.connFlowController != nil && c.cryptoStreamManager != nil && c.cryptoStreamManager.initialStream != nil && c.cryptoStreamManager.handshakeStream != nil && (encLevel == 1 || encLevel == 2 || encLevel == 3)
 //@   ensures [both-handlers-forget-the-space] called("(ackhandler.SentPacketHandler).DropPackets") == 1 && called("(*ReceivedPacketHandler).DropPackets") == 1
 //@   ensures [rejected-0rtt-resets-streams-and-credit] called("(*streamsMap).ResetFor0RTT") == ite(encLevel == 3, 1, 0) && called("(*framer).Handle0RTTRejection") == ite(encLevel == 3, 1, 0) && called("(flowcontrol.ConnectionFlowController).Reset") == ite(encLevel == 3, 1, 0)
 //@   ensures [initial-keys-discarded-with-the-initial-space] called("(quic.cryptoStreamHandler).DiscardInitialKeys") == ite(encLevel == 1, 1, 0)
+//@   ensures [initial-keys-marked-dropped] implies(encLevel == 1 && result == nil, c.droppedInitialKeys)
 //@   modifies everything
+// sendPackedCoalescedPacket (client): a datagram that carries a Handshake packet — in any position, the packer puts an
+// Initial packet first — leaves the Initial keys dropped (RFC 9001 4.9.1); every packet is registered with its own level.
+//@ func (p *longHeaderPacket) EncryptionLevel
+//@   props C13
+//@   requires p.header != nil
+//@   panics when p.header.Type != 1 && p.header.Type != 3 && p.header.Type != 4
+//@   ensures [level-of-the-long-header-type] result == ite(p.header.Type == 1, 1, ite(p.header.Type == 3, 2, 3))
+//@   modifies nothing
+//@ func (p *longHeaderPacket) IsAckEliciting
+//@   trusted pure scan of the frame list
+//@   modifies nothing
+//@ func (p *shortHeaderPacket) IsAckEliciting
+//@   trusted pure scan of the frame list
+//@   modifies nothing
+//@ func (c *Conn) logCoalescedPacket
+//@   trusted logging only
+//@   modifies nothing
+//@ iface (h ackhandler.SentPacketHandler) SentPacket
+//@   modifies nothing
+//@ iface (h quic.sender) Send
+//@   modifies nothing
+//@ func (h *connIDManager) SentPacket
+//@   props C16
+//@   requires h.packetsSinceLastChange < 4294967295
+//@   modifies h.packetsSinceLastChange
+//@ func (c *Conn) sendPackedCoalescedPacket
+//@   props C13
+//@   requires packet != nil && c.sentPacketHandler != nil && c.connIDManager != nil && c.sendQueue != nil && c.connIDManager.packetsSinceLastChange < 4294967295
+//@   requires forall(k, 0, len(packet.longHdrPackets), packet.longHdrPackets[k] != nil && packet.longHdrPackets[k].header != nil && (packet.longHdrPackets[k].header.Type == 1 || packet.longHdrPackets[k].header.Type == 3 || packet.longHdrPackets[k].header.Type == 4) && (packet.longHdrPackets[k].ack == nil || len(packet.longHdrPackets[k].ack.AckRanges) >= 1))
+//@   requires packet.shortHdrPacket == nil || packet.shortHdrPacket.Ack == nil || len(packet.shortHdrPacket.Ack.AckRanges) >= 1
+//@   ensures [client-drops-initial-keys-with-its-first-handshake-packet] implies(result == nil && c.perspective == 2 && exists(k, 0, len(packet.longHdrPackets), packet.longHdrPackets[k].header.Type == 3), c.droppedInitialKeys)
+//@   ensures [every-packet-registered-once] implies(result == nil, called("(ackhandler.SentPacketHandler).SentPacket") == len(packet.longHdrPackets) + ite(packet.shortHdrPacket != nil, 1, 0))
+//@   modifies c.droppedInitialKeys, c.firstAckElicitingPacketAfterIdleSentTime, c.connIDManager.packetsSinceLastChange
+//@ loop (c *Conn) sendPackedCoalescedPacket #0
+//@   invariant [index-in-range] 0 <= rangeidx && rangeidx <= len(packet.longHdrPackets)
+//@   invariant [dropped-so-far] implies(c.perspective == 2 && exists(k, 0, rangeidx, packet.longHdrPackets[k].header.Type == 3), c.droppedInitialKeys)
+//@   invariant [registered-so-far] called("(ackhandler.SentPacketHandler).SentPacket") == rangeidx
+//@   modifies c.droppedInitialKeys, c.firstAckElicitingPacketAfterIdleSentTime
 //@ func startedConnectionEvent
 //@   trusted qlog only
 //@   modifies nothing
